@@ -3,10 +3,12 @@
 # scratch worktree of /repo, runs the named property's quick check against it (VERIF_REPO), and reports whether
 # the check caught it (exit 1 + VIOLATION). Nothing is applied to /repo itself; evidence and replays of these
 # runs go to a scratch directory.
-#   tools/mutants.sh [-t tier] [name ...]
+#   tools/mutants.sh [-t tier] [-p property] [name ...]     (-p: only that property's check)
 cd "$(dirname "$0")/.."
 TIER=quick
+ONLYP=
 if [ "$1" = "-t" ]; then TIER="$2"; shift 2; fi
+if [ "$1" = "-p" ]; then ONLYP="$2"; shift 2; fi
 SCR="$(mktemp -d "${TMPDIR:-/tmp}/verif-mut-XXXXXX")"
 trap 'rm -rf "$SCR"' EXIT
 names=("$@")
@@ -22,6 +24,7 @@ for n in "${names[@]}"; do
     git -C /repo worktree remove --force "$wt"; continue
   fi
   for p in $prop; do
+    if [ -n "$ONLYP" ] && [ "$p" != "$ONLYP" ]; then continue; fi
     start=$(date +%s)
     VERIF_REPO="$wt" VERIF_EVIDENCE_DIR="$SCR/ev" VERIF_REPLAY_DIR="$SCR/replays" ./check "$p" "$TIER" >"$SCR/out.txt" 2>&1
     code=$?
